@@ -5,6 +5,7 @@ import Apko.Proofs.Lemmas.ConflictSort
 import Apko.Proofs.Lemmas.ConflictInv
 import Apko.Proofs.Lemmas.ConflictRefine
 import Apko.Proofs.Lemmas.ConflictRec
+import Apko.Proofs.Lemmas.ConflictLocal
 import Apko.Proofs.Lemmas.ConflictLost
 import Apko.Proofs.Lemmas.ConflictLostWitness
 /-!
@@ -343,6 +344,20 @@ theorem no_silent_overwrite_partial (c : Cfg) (hc : c.spec = false) (pkgs : List
   | wrote _ _ t0 h0 ht => rw [ht, lookupT_setT_ne _ _ _ _ hne, h0 q hne]; exact hq
   | linked _ _ m ht => rw [ht, lookupT_setT_ne _ _ _ _ hne]; exact hq
 
+/-- **no_silent_overwrite_flags** (which flag can break it): a header of an Impl step changes what is
+stored at another path only if the step raises `alias` (F07g) or `throughLink` (F07d); with any other
+flags (`emptyOrigin`, `versioned`, `baseKept`, `linkUntracked`) every node that was stored off the header's
+own path is still there.  Header names spelled in any way.  `silent_overwrite_throughLink` and
+`silent_overwrite_alias` are the two holes as runs. -/
+theorem no_silent_overwrite_flags (c : Cfg) (hc : c.spec = false) (pkgs : List Pkg) (i : Nat) (e : Entry)
+    (st st' : St) (b : Bool) (h : stepEntry c pkgs i e st = .ok (st', b)) (hwf : WFn e)
+    (x : List Flag) (hx : st'.flags = st.flags ++ x) (hl : Local x)
+    (q : PathK) (n : Node) (hq : lookupT st.tree q = some n) (hne : q ≠ parts e.name) :
+    lookupT st'.tree q = some n := by
+  obtain ⟨y, hy, hoff⟩ := stepEntry_off c hc pkgs i e st st' b h hwf
+  have : y = x := List.append_cancel_left (hy.symm.trans hx)
+  exact hoff (this ▸ hl) q n hne hq
+
 /-- **idb_truth_partial**: after a successful flag-free run every name `installedFiles` knows is
 recorded by at most one package, its owner `j`, and the tree holds `j`'s regular file there. -/
 theorem idb_truth_partial (c : Cfg) (hc : c.spec = false) (base : List Entry) (pkgs : List Pkg)
@@ -652,6 +667,21 @@ theorem owner_invariant_fails_alias :
     ∃ st all, installAll { backend := .lazy } [] witnessG = .ok (st, all) ∧
       st.flags = [.alias "l64/x".toList] ∧ ¬ OwnerInv st :=
   failsWith_spec (by decide)
+
+/-- F07d as a silent write: after the memfs run of `witnessD` the tree holds `b`'s body at `s/g`, a path no
+header names (the only flag of the run is `throughLink s/f s/g`) -/
+theorem silent_overwrite_throughLink :
+    (match installAll { backend := .memfs } [] witnessD with
+     | .ok (st, _) => decide (lookupT st.tree [['s'], ['g']] = some (.file ['2'] 0o644 (some 1) false)) &&
+         witnessD.all (fun p => p.entries.all fun e => e.name != ['s', '/', 'g'])
+     | .error _ => false) = true := by decide
+
+/-- F07g as a silent overwrite: after the tarfs run of `witnessG` the node `usr/lib/x` holds `b`'s content,
+written by the header `l64/x` (the only flag of the run is `alias l64/x`) -/
+theorem silent_overwrite_alias :
+    (match installAll { backend := .lazy } [] witnessG with
+     | .ok (st, _) => decide (lookupT st.tree ["usr".toList, "lib".toList, ['x']] = some (.file ['2'] 0o644 (some 1) false))
+     | .error _ => false) = true := by decide
 
 /-- F07g, second form: `b` spells the path of `a`'s file `s/f` as `s//f` -/
 def witnessU : List Pkg :=
